@@ -243,6 +243,45 @@ def resolve_after_add(ctx, seed):
         ctx.hit('resolve-after-add-inconsistent-program', {"vtype": len(fA.vtype), "ub": len(fA.ub), "cols": int(fA.linear.shape[1])}, case)
 
 
+def dro_adapt_after_solve(ctx, seed):
+    """a dro model solved once before the adaptation of its recourse variable is declared (then completed and solved
+    again) == the same model declared in the documented order"""
+    from harness import dro_oracle as DO
+    ctx.search_cases += 1; ctx.evaluations += 1
+    r = np.random.default_rng(seed)
+    d = DO.gen(r)
+    case = {"dro_seed": seed, "history": "declare, objective, solve, adapt, constraints, solve"}
+
+    def pre(m):
+        try:
+            with C.quiet():
+                C.solve_model(m)
+        except Exception:
+            pass
+    def sol(m):
+        try:
+            return C.solve_model(m)
+        except RuntimeError:
+            return None
+    try:
+        with C.quiet():
+            mA, _ = DO.build(d, presolve=pre)
+            mB, _ = DO.build(d)
+        vA, vB = sol(mA), sol(mB)
+    except C.SkipCase:
+        ctx.count('dro-history:skipped'); return
+    except Exception as ex:
+        ctx.hit('dro-adapt-after-solve-raises:' + type(ex).__name__, {"error": str(ex)[:200]}, case); return
+    if (vA is None) != (vB is None):
+        ctx.hit('dro-adapt-after-solve-differs', {"with_presolve": vA, "documented_order": vB}, case)
+    elif vA is None:
+        ctx.count('dro-history:both-infeasible')
+    elif abs(vA - vB) > 1e-5 * (1 + abs(vB)):
+        ctx.hit('dro-adapt-after-solve-differs', {"with_presolve": float(vA), "documented_order": float(vB)}, case)
+    else:
+        ctx.count('dro-history:agree')
+
+
 def expression_reuse(ctx):
     """using an expression inside one construct does not change what it means elsewhere: `e <= 0.5` written before or
     after `E(maxof(e, ..))` is the same robust constraint"""
@@ -342,6 +381,8 @@ def run(ctx):
     expression_reuse(ctx)
     for k in range(ctx.n(24, 200)):
         resolve_after_add(ctx, int(ctx.rng.integers(2 ** 31)))
+    for k in range(ctx.n(16, 200)):
+        dro_adapt_after_solve(ctx, int(ctx.rng.integers(2 ** 31)))
     for k in range(ctx.n(60, 1200)):
         r, seed = c01.O_sub(ctx)
         d = O.gen_model(r); d['seed'] = seed; d['late'] = None     # late rvars are C01/C02's scenario; histories here permute steps
@@ -355,6 +396,10 @@ def replay(rp):
         search_one(ctx, case['desc'], case['history_seed'])
     elif 'resolve_seed' in case:
         resolve_after_add(ctx, case['resolve_seed'])
+    elif 'dro_seed' in case:
+        dro_adapt_after_solve(ctx, case['dro_seed'])
+    elif 'layer' in case:
+        direct_layers(ctx, case['seed'])
     else:
         expression_reuse(ctx)
     return {"hits": [(h['key'], h['detail']) for h in ctx.hits][:3], "fails": bool(ctx.hits)}
